@@ -378,8 +378,29 @@ fn c18(tier: &str, seed: u64) -> GridCheck {
     c
 }
 
+fn c19(tier: &str, seed: u64) -> GridCheck {
+    let mut c = base_check("C19", "C19", "exploration");
+    let mut cfg = GenCfg::base(vec!["join", "try_join"]);
+    cfg.n = (1, 6);
+    cfg.depth = (1, 4);
+    cfg.cell = (0, 3);
+    cfg.wrappers = 0.2;
+    cfg.caps = 0.2;
+    cfg.names = 0.3;
+    cfg.snaps = 0.5;
+    cfg.handler = 0.4;
+    let count = if tier == "quick" { 480 } else { 4800 };
+    c.progs = sample(seed, 0x1900, count, &cfg, &|i| Some(["join", "try_join"][i % 2]));
+    c.budget = if tier == "quick" { 24 } else { 96 };
+    c.features = vec!["countalloc"];
+    c.rule = "allocation stage: random grid programs under join! / try_join! (1-6 branches, 1-4 steps, wrappers, block captures, let names, handlers) whose user code (harness callbacks over move-only tokens, event log switched to a preallocated buffer) performs no heap allocation; inputs: the all-succeed plan plus enumerated / sampled failure plans; oracle: the per-thread allocation counter of a counting global allocator does not change across the macro expression (and the value is the model's, so the measured evaluation did what it should). Non-trivial = >= 2 branches, >= 2 steps and a `??`".to_string();
+    c.assumptions.push("allocations are counted on the evaluating thread only; the sequential macros do not use other threads".to_string());
+    c
+}
+
 pub fn build(id: &str, tier: &str, seed: u64) -> Option<GridCheck> {
     Some(match id {
+        "C19" => c19(tier, seed),
         "C07" => c07(tier, seed),
         "C18" => c18(tier, seed),
         "C03" => c03(tier, seed),
@@ -397,6 +418,9 @@ pub fn build(id: &str, tier: &str, seed: u64) -> Option<GridCheck> {
 }
 
 pub fn run(id: &str, tier: &str, seed: u64) -> i32 {
+    if id == "C19" {
+        render::MEASURE_ALLOC.store(true, std::sync::atomic::Ordering::SeqCst);
+    }
     match build(id, tier, seed) {
         Some(c) => grid::run(c, tier, seed),
         None => {
